@@ -9,7 +9,7 @@ git -C /repo worktree add -q --detach $W HEAD || exit 9
 cleanup() { git -C /repo worktree remove --force $W >/dev/null 2>&1; rm -rf $W; }
 trap cleanup EXIT
 cd $W
-ID=$(basename $(dirname $M)); ID=${ID%.out4}; ID=${ID%.out3}; ID=${ID%.out2}; ID=${ID%.out}
+ID=$(basename $(dirname $M)); ID=${ID%.out5}; ID=${ID%.out4}; ID=${ID%.out3}; ID=${ID%.out2}; ID=${ID%.out}
 mkdir -p $W.scratch /tmp/wt/$ID.scratch
 RUN=$(cat $M/demo/RUN.txt | sed "s#/tmp/wt/$ID\([^.o]\|\$\)#$W\1#g")
 for f in $M/demo/*.sh; do [ -f "$f" ] && sed "s#/tmp/wt/$ID\([^.o]\|\$\)#$W\1#g" $f > $f.adapted; done
